@@ -563,3 +563,39 @@ func GoodA8Tick(s *a8stream, w interceptor.RTCPWriter) {
 func BadA8Tick(s *a8stream, w interceptor.RTCPWriter) {
 	_, _ = w.Write([]rtcp.Packet{s.reused()}, nil)
 }
+
+// ---- A9 -------------------------------------------------------------------------------------------------------
+
+type a9report struct {
+	n     int
+	items []int
+}
+
+type a9hist struct {
+	acked   []int
+	scratch []int
+}
+
+func (h *a9hist) fresh() []int {
+	out := make([]int, 0, len(h.acked))
+	return append(out, h.acked...)
+}
+
+func (h *a9hist) reused() []int {
+	res := h.scratch[:0]
+	res = append(res, h.acked...)
+	h.scratch = res
+	return res
+}
+
+// GoodA9Publish hands the application a report allocated for this read; BadA9Publish hands it the history's refill
+// buffer.
+func GoodA9Publish(h *a9hist, attr interceptor.Attributes) {
+	items := h.fresh()
+	attr.Set(1, a9report{n: len(items), items: items})
+}
+
+func BadA9Publish(h *a9hist, attr interceptor.Attributes) {
+	items := h.reused()
+	attr.Set(1, a9report{n: len(items), items: items})
+}
